@@ -1,4 +1,6 @@
 import Esp.Props.C08
+import Esp.Model.Timing
+import Esp.Gen.Consts
 /-!
 # C09 — operations end in bounded time with a classified error; first cause wins
 
@@ -118,5 +120,75 @@ example : (run {} [.callStart, .resolved true, .wakeStart, .sockDone true, .wake
 example : (run { login := true } [.callStart, .resolved true, .wakeStart, .sockDone true, .wakeStart, .callFinish, .connMade,
     .wakeFinish, .data [.hresp (.connect false), .hresp (.hello true true)], .wakeFinish]).finish =
     .done (.err .unhandled) := by decide +kernel
+
+/-! ## the time bounds
+
+The connection LTS above is untimed.  The time structure of each awaited operation is a sequence of guarded waits
+(`Model/Timing.lean`); its constants are the library's (translator-generated), and the harness measures, in virtual
+time, the completion instant of the real operations under scripted environments and compares it with `Timing.phase`. -/
+
+open Timing in
+/-- **C09 (bounded).**  Whatever the environment does — for every script of outcomes and delays, silence included —
+a phase that begins at `t` is over by `t +` the sum of its guards. -/
+theorem c09_bounded (t : Nat) (ws : List Nat) (evs : List Timing.Ev) : (phase t ws evs).1 ≤ t + ws.sum := by
+  induction ws generalizing t evs with
+  | nil => simp [phase]
+  | cons b ws ih =>
+    cases evs with
+    | nil => simp [phase]
+    | cons e es =>
+      simp only [phase, List.sum_cons]
+      split
+      · omega
+      · split
+        · have := ih (t + e.d) es; omega
+        · omega
+      · split <;> omega
+
+open Timing in
+/-- … and it ends with success only if every wait was answered in time -/
+theorem c09_success_iff (t : Nat) (ws : List Nat) (evs : List Timing.Ev) (h : (phase t ws evs).2 = .success) :
+    ws.length ≤ evs.length ∧ ∀ i (hi : i < ws.length) (hj : i < evs.length), evs[i].o = .ok ∧ evs[i].d < ws[i] := by
+  induction ws generalizing t evs with
+  | nil => exact ⟨by simp, fun i hi => by simp at hi⟩
+  | cons b ws ih =>
+    cases evs with
+    | nil => simp [phase] at h
+    | cons e es =>
+      simp only [phase] at h
+      split at h
+      · simp at h
+      · rename_i ho
+        split at h
+        · rename_i hd
+          obtain ⟨hl, hall⟩ := ih (t + e.d) es h
+          refine ⟨by simp; omega, ?_⟩
+          intro i hi hj
+          cases i with
+          | zero => exact ⟨ho, hd⟩
+          | succ i => simpa using hall i (by simpa using hi) (by simpa using hj)
+        · simp at h
+      · split at h <;> simp at h
+
+open Timing in
+/-- a wait that is never answered ends the phase exactly at its own deadline with the timeout error -/
+theorem c09_silent_exact (t : Nat) (b : Nat) (ws : List Nat) (es : List Timing.Ev) (d : Nat) :
+    phase t (b :: ws) (⟨.silent, d⟩ :: es) = (t + b, .timedOut) := by simp [phase]
+
+open Timing in
+/-- the guards are the library's constants (regenerated from /repo on every run), so the documented bounds are
+90 s for `start_connection`, 60 s for `finish_connection`, 10 s (15 s while a finish is in progress) for `disconnect` -/
+theorem c09_consts :
+    startWaits = [Gen.resolveTimeout.1.toNat, Gen.tcpConnectTimeout.1.toNat] ∧
+    finishWaits = [Gen.handshakeTimeout.1.toNat, Gen.connectRequestTimeout.1.toNat] ∧
+    discDuringFinishWaits = [Gen.disconnectConnectTimeout.1.toNat, Gen.disconnectResponseTimeout.1.toNat] ∧
+    discWaits = [Gen.disconnectResponseTimeout.1.toNat] ∧
+    Gen.resolveTimeout.2 = 1 ∧ Gen.tcpConnectTimeout.2 = 1 ∧ Gen.handshakeTimeout.2 = 1 ∧ Gen.connectRequestTimeout.2 = 1 ∧
+    Gen.disconnectConnectTimeout.2 = 1 ∧ Gen.disconnectResponseTimeout.2 = 1 ∧
+    startWaits.sum = 90 ∧ finishWaits.sum = 60 ∧ discDuringFinishWaits.sum = 15 := by decide
+
+example : Timing.phase 100 Timing.startWaits [⟨.ok, 29⟩, ⟨.silent, 0⟩] = (189, .timedOut) := by decide
+example : Timing.phase 0 Timing.finishWaits [⟨.ok, 3⟩, ⟨.err, 7⟩] = (10, .failed) := by decide
+example : Timing.phase 0 Timing.finishWaits [⟨.ok, 3⟩, ⟨.ok, 30⟩] = (33, .timedOut) := by decide
 
 end Esp.C09
